@@ -15,12 +15,12 @@ import (
 
 // ErrClass is one way an error value can arise (analysis A3).
 type ErrClass struct {
-	Tags   string // "+"-joined sorted subset of BadPkt NoPkt NotSupported Permanent
-	Cause  string // nil io content guard state unknown
-	Origin string // line-free key of the creating site: "<func>#<kind>(<what>)"
-	Pos    token.Pos
-	Fn     *ssa.Function
-	Wrapped bool // false when an underlying cause was dropped (%v / not passed on)
+	Tags    string // "+"-joined sorted subset of BadPkt NoPkt NotSupported Permanent
+	Cause   string // nil io content guard state unknown
+	Origin  string // line-free key of the creating site: "<func>#<kind>(<what>)"
+	Pos     token.Pos
+	Fn      *ssa.Function
+	Wrapped bool   // false when an underlying cause was dropped (%v / not passed on)
 	Site    string // for NotSupported: line-free key of the wrapping site
 	SiteFn  *ssa.Function
 	SitePos token.Pos
